@@ -324,6 +324,13 @@ def withdrawReward (s : State) (o : Nat) : State × Res :=
     else if getBal s.dbal o == 0 then (s, .err "empty")
     else ({ s with bal := Store.set s.bal o (getBal s.bal o + getBal s.dbal o), dbal := Store.set s.dbal o 0 }, .ok)
 
+/-- the unbonding-delegation test of `UnbondedOracle` as coded -/
+def unbondBlocked (pending : Bool) : Bool :=
+  match unbondUbdTest with
+  | .rejectIfExists => pending
+  | .rejectIfMissing => !pending
+  | .none => false
+
 /-- `UnbondedOracle` -/
 def unbond (s : State) (o : Nat) : State × Res :=
   if s.proposal.contains o then (s, .err "in-proposal") else
@@ -332,11 +339,7 @@ def unbond (s : State) (o : Nat) : State × Res :=
   | some r =>
     if r.online then (s, .err "online") else
     let pending := s.ubds.any (fun u => u.oracle == o && u.val == r.val)
-    let blocked := match unbondUbdTest with
-      | .rejectIfExists => pending
-      | .rejectIfMissing => !pending
-      | .none => false
-    if blocked then (s, .err "ubd") else
+    if unbondBlocked pending then (s, .err "ubd") else
     let slash := slashAmount s.p r
     if getBal s.dbal o < slash then (s, .err "slash-short") else
     let pay := getBal s.dbal o - slash
